@@ -240,7 +240,8 @@ def run(ctx):
     R.ob('C07.server', ('server', 'no assignment to a context deadline'), not writes,
          'no server code path assigns to Context.deadline', [f.loc(s) for f, s in writes] or [sr.loc(sr.d)])
     ex = F.inherent('server::InFlightRequest', 'execute')
-    for b in F.with_descendants(ex):
+    from .common import deep_bodies
+    for b in deep_bodies(F, ex):
         for bb, t in b.calls():
             if callee_is(t, 'server::Serve::serve'):
                 rs = P.root(P.operand(b, t['args'][1], at=bb))
